@@ -77,7 +77,15 @@ TPatch == /\ IsEvent("patch")
              /\ Verdict(e, {<<"model", d>> : d \in NodeDiff(ModelNodes(patch'), ObsNodes(e))}
                            \cup {<<"forest", r>> : r \in ForestReasons(ObsNodes(e), ObsKeys(e))})
 
-TNext == TReset \/ TUpdate \/ TPatch
+\* a patch graph built from a tree in which a whole note stands in the place of a block reference (what
+\* 'Inline section' builds): no model arena to compare with, the forest invariants are evaluated on what was built
+TInlined == /\ IsEvent("patch_inlined")
+            /\ UNCHANGED <<nodes, keys, docs, ops, patch, index>>
+            /\ LET e == Rec[l] IN
+               Verdict(e, IF Len(e.nodes) = 1 /\ e.nodes[1].kind = "panic" THEN {<<"forest", <<"panic">>>>}
+                          ELSE {<<"forest", r>> : r \in ForestReasons(ObsNodes(e), ObsKeys(e))})
+
+TNext == TReset \/ TUpdate \/ TPatch \/ TInlined
 TSpec == TInit /\ [][TNext]_tvars
 
 Accepted == IF TLCGet("stats").diameter - 1 = Len(Rec) THEN PrintT(<<"ACCEPTED", Len(Rec)>>)
